@@ -1131,3 +1131,125 @@ func chainResultNonNil(c *Ctx, fn *ssa.Function, di *dispatchInfo, st *State) in
 	}
 	return -1
 }
+
+// rulePostChainRO: what the plugin chain returned is what is sent: between the
+// dispatch loop and the send, the server itself does not modify the reply (nor,
+// for DHCPv6, the relay reply built around it) - no impure method of the packet
+// or of its option containers is called on it, and none of its fields is
+// stored to. Only the value's provenance decides (the dispatch loop's exit
+// value, or the relay re-encapsulation of it), so the stub built before the
+// chain is not concerned.
+func rulePostChainRO(c *Ctx, rule string, fn *ssa.Function, di *dispatchInfo) {
+	key := shortFn(fn) + " reply unmodified after the chain"
+	if di == nil || di.ExitPhi == nil {
+		c.R.unk(rule, key, c.P.Pos(fn.Pos()), shortFn(fn), "dispatch loop not recognised")
+		return
+	}
+	post := func(v ssa.Value) bool {
+		if v == ssa.Value(di.ExitPhi) {
+			return true
+		}
+		if ex, ok := v.(*ssa.Extract); ok && ex.Index == 0 {
+			if call, ok := ex.Tuple.(*ssa.Call); ok {
+				if f := call.Call.StaticCallee(); f != nil && f.String() == pkgDHCP6+".NewRelayReplFromRelayForw" {
+					return true
+				}
+			}
+		}
+		return false
+	}
+	// the packet an address expression is rooted at: peel field addresses, loads and interface unboxing
+	root := func(v ssa.Value) ssa.Value {
+		for i := 0; i < 8; i++ {
+			switch x := v.(type) {
+			case *ssa.FieldAddr:
+				v = x.X
+			case *ssa.UnOp:
+				if fa, ok := x.X.(*ssa.FieldAddr); ok && x.Op == token.MUL {
+					v = fa.X
+				} else {
+					return v
+				}
+			case *ssa.TypeAssert:
+				v = x.X
+			case *ssa.ChangeInterface:
+				v = x.X
+			case *ssa.MakeInterface:
+				v = x.X
+			default:
+				return v
+			}
+		}
+		return v
+	}
+	isPost := func(v ssa.Value) bool {
+		r := root(v)
+		if r == nil {
+			return false
+		}
+		if _, isConst := r.(*ssa.Const); isConst {
+			return false
+		}
+		if ok, _ := staticOrigins(c, fn, r, post); ok {
+			return true
+		}
+		// a value that *may* be the reply (a loop variable walking the relay layers of it)
+		for _, l := range mayLeaves(c.P, r) {
+			if post(l) {
+				return true
+			}
+		}
+		return false
+	}
+	var bad []string
+	n := 0
+	for _, in := range viewInstrs(fn) {
+		switch x := in.(type) {
+		case *ssa.Store:
+			if fa, ok := x.Addr.(*ssa.FieldAddr); ok && isPost(fa) {
+				n++
+				bad = append(bad, fmt.Sprintf("a field of the chain's reply is overwritten at %s", c.P.InstrPos(in)))
+			}
+		case *ssa.Call:
+			cc := &x.Call
+			if _, isB := cc.Value.(*ssa.Builtin); isB {
+				continue
+			}
+			callee := cc.StaticCallee()
+			if callee != nil && FirstParty(callee) {
+				continue // its body is part of the view (or it is judged on its own)
+			}
+			if c.Pure.IsPureCall(cc) || harmlessCallee(cc) {
+				continue
+			}
+			args := cc.Args
+			if cc.IsInvoke() {
+				args = append([]ssa.Value{cc.Value}, cc.Args...)
+			}
+			if len(args) == 0 || !pointerLike(args[0].Type()) {
+				continue
+			}
+			// only receivers that are the packet or one of its option containers
+			rn := namedOf(args[0].Type())
+			if cc.IsInvoke() {
+				rn = invokeName(cc)
+			}
+			if !strings.Contains(rn, "/dhcpv4.") && !strings.Contains(rn, "/dhcpv6.") {
+				continue
+			}
+			name := calleeName(cc)
+			if strings.HasSuffix(name, ".ToBytes") || strings.HasSuffix(name, ".Summary") || strings.HasSuffix(name, ".String") {
+				continue
+			}
+			if isPost(args[0]) {
+				n++
+				bad = append(bad, fmt.Sprintf("%s is called on the chain's reply at %s: the server changes what the plugins decided", name, c.P.InstrPos(in)))
+			}
+		}
+	}
+	if len(bad) > 0 {
+		c.R.bad(rule, key, c.P.Pos(fn.Pos()), shortFn(fn), strings.Join(dedup(bad), "; "))
+	} else {
+		c.R.ok(rule, key, c.P.Pos(fn.Pos()), shortFn(fn), "no store into, and no impure codec method on, the dispatch loop's result or its relay re-encapsulation")
+	}
+}
